@@ -12,7 +12,7 @@ import Mustache.Proofs.ClosureSpec
 line-protocol driver keeps it (`Driver/World.lean`, `St.issued`). `ordOf` is the driver's handle → ordinal map
 (`St.ordinal`: the LATEST ordinal whose handle is the given one). `absEnt` reads the abstract entity record off
 the archetype row of a valid handle. `Rel` relates a `CW` to a spec state `WS`; `Inv` collects the invariants of
-the reachable model states (C01 id table, C02 rows/locations, C12 pool, C13 closure, buffers); `OpWf` is the
+the reachable model states (C01 id table, C02 rows/locations, C12 pool, bounded dependency table, buffers); `OpWf` is the
 documented contract (DESIGN.md 3.3) of one operation; `Bounds` the range side conditions (3.2).
 -/
 namespace Mustache.Proofs.Refine
@@ -155,7 +155,6 @@ structure Inv (c : CW) : Prop where
   live : LiveInv c.w
   pool : PoolInv c.w
   shared : SharedPooled c.w
-  closed : Mustache.Model.ArchsClosed c.w.deps c.w.archs
   depsB : DepsBounded c.w.deps
   locsCover : c.w.slots.length ≤ c.w.locs.length
   bufLe : c.w.buffers.length ≤ c.w.nthreads
@@ -194,9 +193,7 @@ def OpWf (c : CW) : Op Handle → Prop
   | .update => True
   | .lock => True
   | .unlock => True
-  | .dep comp extra =>
-    (∀ x ∈ extra, x < 128) ∧
-    ∀ a ∈ c.w.archs, ∀ x ∈ a.mask, ∀ d ∈ depsOf (addDependency c.w.deps comp extra) x, d ∈ a.mask
+  | .dep _ extra => ∀ x ∈ extra, x < 128
   | .valid _ => True
   | .has _ _ => True
   | .hasShared _ _ => True
